@@ -377,6 +377,7 @@ where
     for value in values {
         match value {
             Some(Value::Float(n)) => {
+                validate_float(*n)?;
                 write_f32_le(writer, *n)?;
             }
             Some(v) => {
@@ -390,6 +391,16 @@ where
     }
 
     Ok(())
+}
+
+fn validate_float(n: f32) -> io::Result<()> {
+    match Float::from(n) {
+        Float::Value(_) => Ok(()),
+        v => Err(io::Error::new(
+            io::ErrorKind::InvalidInput,
+            format!("invalid genotype field float value: {v:?}"),
+        )),
+    }
 }
 
 fn write_float_array_values<W>(writer: &mut W, values: &[Option<Value<'_>>]) -> io::Result<()>
@@ -412,7 +423,15 @@ where
             Some(Value::Array(Array::Float(vs))) => {
                 for result in vs.iter() {
                     let v = result?;
-                    let raw_value = v.unwrap_or(f32::from(Float::Missing));
+
+                    let raw_value = match v {
+                        Some(n) => {
+                            validate_float(n)?;
+                            n
+                        }
+                        None => f32::from(Float::Missing),
+                    };
+
                     write_f32_le(writer, raw_value)?;
                 }
 
